@@ -109,9 +109,10 @@ def _chunk(args):
           cls = {"cls": "explicit_pair_margin"}
         elif (c["t1"], c["t2"]) == ("box", "box") and got and ref:
           cls = {"cls": "multiccd_count"}
-        elif (c["t1"], c["t2"]) == ("plane", "mesh") and got and ref and len(got) < len(ref):
-          # fewer contacts than MuJoCo, but every one of them is one of MuJoCo's (same point, depth and normal)
-          if all(any(abs(y["dist"] - x["dist"]) <= tol and np.abs(y["pos"] - x["pos"]).max() <= 5 * tol and np.abs(y["frame"][0] - x["frame"][0]).max() <= 2e-2 for x in ref) for y in got):
+        elif (c["t1"], c["t2"]) == ("plane", "mesh") and got and ref:
+          # a different number of contacts than MuJoCo, but the shorter list is part of the longer one (same point, depth and normal)
+          short, long_ = (got, ref) if len(got) < len(ref) else (ref, got)
+          if all(any(abs(y["dist"] - x["dist"]) <= tol and np.abs(y["pos"] - x["pos"]).max() <= 5 * tol and np.abs(y["frame"][0] - x["frame"][0]).max() <= 2e-2 for x in long_) for y in short):
             cls = {"cls": "plane_mesh_manifold"}
         elif (c["t1"], c["t2"]) in (("box", "mesh"), ("mesh", "mesh")) and got and ref and len(got) < len(ref):
           # the multi-contact routine found no face contact where MuJoCo's did: what is reported must then be MuJoCo's single-contact (multiccd off) answer
